@@ -25,6 +25,11 @@
                               same file; Register handlers for [regs]
      Recover oc               Hydro.Recover with handlers scripted per item by [oc]
                               (OCrash: Handle panics = the process dies there)
+     Inject key val           a foreign writer puts key -> val into the bucket while the Hydro is closed
+                              (Close; Lithium.Put; NewHydro with the same handlers).  val = None: a value that
+                              does not decode as an event (json.Unmarshal fails).  Recover skips entries whose
+                              value does not decode or whose key does not parse (decodeEvent error: logged,
+                              `continue`) and never deletes them.
    No proofs in this file. *)
 From Coq Require Import List Bool Arith NArith String Ascii.
 From Verif Require Import Base.GoStr.
@@ -61,9 +66,10 @@ Definition parse_event_id (key : bytes) : option N :=
   parse_hex64 (trim_left (s2l "0") (trim_prefix event_prefix key)).
 
 (* ---- the bucket ---- *)
-Definition kvstore := list (bytes * (N * N)).
+(* value: Some (type, item) = a HydroEvent JSON; None = bytes that do not decode *)
+Definition kvstore := list (bytes * option (N * N)).
 
-Fixpoint kv_put (k : bytes) (v : N * N) (s : kvstore) : kvstore :=
+Fixpoint kv_put (k : bytes) (v : option (N * N)) (s : kvstore) : kvstore :=
   match s with
   | [] => [(k, v)]
   | (k', v') :: t =>
@@ -98,13 +104,15 @@ Inductive op :=
 | Log (typ item : N) (enc_ok : bool)
 | Commit (k : nat)
 | Reopen (burn : N) (regs : list N)
-| Recover (oc : list (N * outcome)).
+| Recover (oc : list (N * outcome))
+| Inject (key : bytes) (val : option (N * N)).
 
 Inductive result :=
 | RLogged (id : N) | RLogUnknownType | RLogEncodeErr
 | RCommitted (id : N) | RCommitStale | RCommitNone
 | RReopened (snapshot : kvstore)
-| RRecovered (calls : list (entry * outcome)).
+| RRecovered (calls : list (entry * outcome))
+| RInjected.
 
 Fixpoint memN (x : N) (l : list N) : bool :=
   match l with [] => false | y :: t => N.eqb x y || memN x t end.
@@ -115,11 +123,15 @@ Fixpoint lookup_oc (item : N) (oc : list (N * outcome)) : outcome :=
   | (i, o) :: t => if N.eqb item i then o else lookup_oc item t
   end.
 
-(* Recover, first loop: decode every scanned pair; undecodable ones are logged and skipped *)
+(* Recover, first loop (decodeEvent): json.Unmarshal(value) then parseHydroEventID(key);
+   an entry failing either is logged and skipped *)
 Definition decode_events (s : kvstore) : list entry :=
-  flat_map (fun kv => match parse_event_id (fst kv) with
-                      | Some id => [mkEntry id (fst (snd kv)) (snd (snd kv))]
+  flat_map (fun kv => match snd kv with
                       | None => []
+                      | Some ti => match parse_event_id (fst kv) with
+                                   | Some id => [mkEntry id (fst ti) (snd ti)]
+                                   | None => []
+                                   end
                       end) s.
 
 (* Recover, second loop *)
@@ -143,7 +155,7 @@ Definition step (st : state) (o : op) : state * result :=
       else if negb enc_ok then (st, RLogEncodeErr)
       else
         let id := (seq st + 1)%N in
-        (mkState id (kv_put (event_key id) (typ, item) (kv st)) (reg st) (gen st)
+        (mkState id (kv_put (event_key id) (Some (typ, item)) (kv st)) (reg st) (gen st)
                  (issued st ++ [(id, gen st)]),
          RLogged id)
   | Commit k =>
@@ -161,6 +173,8 @@ Definition step (st : state) (o : op) : state * result :=
       let events := decode_events (kv_scan event_prefix (kv st)) in
       let '(s', calls) := replay (reg st) oc events (kv st) in
       (mkState (seq st) s' (reg st) (gen st) (issued st), RRecovered calls)
+  | Inject key val =>
+      (mkState (seq st) (kv_put key val (kv st)) (reg st) (gen st + 1)%N (issued st), RInjected)
   end.
 
 Fixpoint run (st : state) (ops : list op) : list (op * result) * state :=
@@ -177,8 +191,10 @@ Fixpoint run (st : state) (ops : list op) : list (op * result) * state :=
 Inductive obs :=
 | ObsLog (kind : N)                                   (* 0 = ok, 1 = unknown type, 2 = encode error *)
 | ObsCommit (ok : bool)                                (* Commit returned nil *)
-| ObsReopen (snapshot : list (string * N * N * N))     (* key, ID field of the JSON value, type, item; cursor order *)
-| ObsRecover (calls : list (N * N * N)).               (* type, item, handler methods reached; call order *)
+| ObsReopen (snapshot : list (string * option (N * N * N)))  (* key, and (ID field of the JSON value, type, item) when
+                                                                the value decodes; cursor order *)
+| ObsRecover (calls : list (N * N * N))                (* type, item, handler methods reached; call order *)
+| ObsInject.
 
 Record case := mkCase { c_regs : list N; c_ops : list op; c_obs : list obs }.
 
@@ -192,13 +208,21 @@ Fixpoint list_eqb {A} (eqb : A -> A -> bool) (l1 l2 : list A) : bool :=
   | _, _ => false
   end.
 
-Definition snap_eqb (m : bytes * (N * N)) (o : string * N * N * N) : bool :=
-  let '(k, (t, i)) := m in
-  let '(ok, oid, ot, oi) := o in
-  bytes_eqb k (s2l ok) && N.eqb t ot && N.eqb i oi
-  && match parse_event_id k with Some id => N.eqb id oid | None => false end.
+Definition snap_eqb (m : bytes * option (N * N)) (o : string * option (N * N * N)) : bool :=
+  bytes_eqb (fst m) (s2l (fst o)) &&
+  match snd m, snd o with
+  | None, None => true
+  | Some (t, i), Some (oid, ot, oi) =>
+      N.eqb t ot && N.eqb i oi
+      (* the ID field of the value Log wrote is the id of its (canonical) key *)
+      && match parse_event_id (fst m) with
+         | Some id => if bytes_eqb (fst m) (event_key id) then N.eqb id oid else true
+         | None => true
+         end
+  | _, _ => false
+  end.
 
-Fixpoint snaps_eqb (m : kvstore) (o : list (string * N * N * N)) : bool :=
+Fixpoint snaps_eqb (m : kvstore) (o : list (string * option (N * N * N))) : bool :=
   match m, o with
   | [], [] => true
   | a :: m', b :: o' => snap_eqb a b && snaps_eqb m' o'
@@ -213,6 +237,7 @@ Definition res_agrees (r : result) (o : obs) : bool :=
   | RCommitted _, ObsCommit b => b
   | RCommitStale, ObsCommit b => negb b
   | RReopened snap, ObsReopen osnap => snaps_eqb snap osnap
+  | RInjected, ObsInject => true
   | RRecovered calls, ObsRecover ocalls =>
       list_eqb triple_eqb (map (fun c => (e_typ (fst c), e_item (fst c), stages (snd c))) calls) ocalls
   | _, _ => false
@@ -234,8 +259,9 @@ Definition agree (c : case) : bool :=
      lg    (item, type) of every successful Log, in logging order
      gone  items whose Commit ran (returned nil) or that a recovery removed
      rg    registered types
-     ids   (item, id) pairs seen in snapshots so far *)
-Record spec := mkSpec { lg : list (N * N); gone : list N; rg : list N; ids : list (N * N); good : bool }.
+     ids   (item, id) pairs seen in snapshots so far
+     inj   keys written by the foreign writer *)
+Record spec := mkSpec { lg : list (N * N); gone : list N; rg : list N; ids : list (N * N); inj : list string; good : bool }.
 
 Fixpoint lookupN (k : N) (m : list (N * N)) : option N :=
   match m with [] => None | (k', v) :: t => if N.eqb k k' then Some v else lookupN k t end.
@@ -266,7 +292,10 @@ Fixpoint is_prefix (a b : list N) : bool :=
 Definition known_ids (sp : spec) : list N :=
   flat_map (fun it => match lookupN (fst it) (ids sp) with Some id => [id] | None => [] end) (lg sp).
 
-Definition fail (sp : spec) : spec := mkSpec (lg sp) (gone sp) (rg sp) (ids sp) false.
+Definition fail (sp : spec) : spec := mkSpec (lg sp) (gone sp) (rg sp) (ids sp) (inj sp) false.
+
+Fixpoint mem_string (x : string) (l : list string) : bool :=
+  match l with [] => false | y :: t => String.eqb x y || mem_string x t end.
 
 Definition spec_step (sp : spec) (o : op) (b : obs) : spec :=
   match o, b with
@@ -274,16 +303,22 @@ Definition spec_step (sp : spec) (o : op) (b : obs) : spec :=
       if N.eqb k 0
       then (* tokens are unique: the harness never logs the same item twice *)
            if memN item (map fst (lg sp)) then fail sp
-           else mkSpec (lg sp ++ [(item, typ)]) (gone sp) (rg sp) (ids sp) (good sp)
+           else mkSpec (lg sp ++ [(item, typ)]) (gone sp) (rg sp) (ids sp) (inj sp) (good sp)
       else sp
   | Commit k, ObsCommit okb =>
       if okb then
         match nth_error (lg sp) k with
-        | Some (item, _) => mkSpec (lg sp) (item :: gone sp) (rg sp) (ids sp) (good sp)
+        | Some (item, _) => mkSpec (lg sp) (item :: gone sp) (rg sp) (ids sp) (inj sp) (good sp)
         | None => fail sp
         end
       else sp
-  | Reopen _ regs, ObsReopen snap =>
+  | Reopen _ regs, ObsReopen snap0 =>
+      (* foreign entries: every key the foreign writer put is still there (nothing ever deletes it) ... *)
+      let c0 := forallb (fun k => mem_string k (map fst snap0)) (inj sp) in
+      (* ... and apart from them the file holds events only *)
+      let own := filter (fun s => negb (mem_string (fst s) (inj sp))) snap0 in
+      let c0' := forallb (fun s => match snd s with Some _ => true | None => false end) own in
+      let snap := flat_map (fun s => match snd s with Some x => [(fst s, fst (fst x), snd (fst x), snd x)] | None => [] end) own in
       let live := filter (fun it => negb (memN (fst it) (gone sp))) (lg sp) in
       (* surviving events = logged and neither committed nor removed by a recovery, in logging order *)
       let c1 := list_eqb2 (fun a s => N.eqb (fst a) (snd s) && N.eqb (snd a) (snd (fst s))) live snap in
@@ -291,9 +326,10 @@ Definition spec_step (sp : spec) (o : op) (b : obs) : spec :=
       let c2 := forallb (fun s => let '(_, id, _, item) := s in
                                   match lookupN item (ids sp) with Some id' => N.eqb id id' | None => true end) snap in
       let ids' := map (fun s => let '(_, id, _, item) := s in (item, id)) snap ++ ids sp in
-      let sp' := mkSpec (lg sp) (gone sp) regs ids' (good sp && c1 && c2) in
+      let sp' := mkSpec (lg sp) (gone sp) regs ids' (inj sp) (good sp && c0 && c0' && c1 && c2) in
       (* ids strictly increase in logging order over everything ever observed: never reused *)
-      mkSpec (lg sp') (gone sp') regs ids' (good sp' && strictly_incr (known_ids sp') && forallb (fun s => N.leb 1 (snd (fst (fst s)))) snap)
+      mkSpec (lg sp') (gone sp') regs ids' (inj sp) (good sp' && strictly_incr (known_ids sp') && forallb (fun s => N.leb 1 (snd (fst (fst s)))) snap)
+  | Inject key _, ObsInject => mkSpec (lg sp) (gone sp) (rg sp) (ids sp) (l2s key :: inj sp) (good sp)
   | Recover oc, ObsRecover calls =>
       let expected := filter (fun it => negb (memN (fst it) (gone sp)) && memN (snd it) (rg sp)) (lg sp) in
       let called := map (fun c => snd (fst c)) calls in
@@ -313,7 +349,7 @@ Definition spec_step (sp : spec) (o : op) (b : obs) : spec :=
                                   N.eqb st (stages (lookup_oc i oc))
                                   && match lookupN i (lg sp) with Some t' => N.eqb t t' | None => false end) calls in
       let removed := map (fun c => snd (fst c)) (filter (fun c => removes (lookup_oc (snd (fst c)) oc)) calls) in
-      mkSpec (lg sp) (removed ++ gone sp) (rg sp) (ids sp) (good sp && c1 && c2 && c3)
+      mkSpec (lg sp) (removed ++ gone sp) (rg sp) (ids sp) (inj sp) (good sp && c1 && c2 && c3)
   | _, _ => fail sp
   end.
 
@@ -325,7 +361,7 @@ Fixpoint spec_run (sp : spec) (ops : list op) (os : list obs) : spec :=
   end.
 
 Definition ok (c : case) : bool :=
-  good (spec_run (mkSpec [] [] (c_regs c) [] true) (c_ops c) (c_obs c)).
+  good (spec_run (mkSpec [] [] (c_regs c) [] [] true) (c_ops c) (c_obs c)).
 
 (* ================= key codec stream ================= *)
 (* the real HydroEvent.Key / parseHydroEventID (through Log + snapshot) and arbitrary keys *)
